@@ -1047,3 +1047,126 @@ impl ShakeSizeParser {
         (self.next() % 64) as usize
     }
 }
+
+//@@ octo-squirrel/src/util.rs:15-22  mod fnv / fn fnv1a32  sha=6db10d0668e87ad2
+fn fnv__fnv1a32(data: &[u8]) -> u32 {
+        let mut hash: u32 = 2166136261; // offset basis
+        for b in data {
+            hash ^= *b as u32;
+            hash = hash.wrapping_mul(16777619); // prime
+        }
+        hash
+    }
+
+//@@ octo-squirrel/src/protocol/vmess/aead/kdf.rs:6-6  const SALT_LENGTH_KEY  sha=342c6667ca5461c2
+#[verifier::external_body] exec const kdf__SALT_LENGTH_KEY: &'static [u8] ensures kdf__SALT_LENGTH_KEY@ =~= seq![86u8, 77u8, 101u8, 115u8, 115u8, 32u8, 72u8, 101u8, 97u8, 100u8, 101u8, 114u8, 32u8, 65u8, 69u8, 65u8, 68u8, 32u8, 75u8, 101u8, 121u8, 95u8, 76u8, 101u8, 110u8, 103u8, 116u8, 104u8] { b"VMess Header AEAD Key_Length" }
+
+//@@ octo-squirrel/src/protocol/vmess/aead/kdf.rs:7-7  const SALT_LENGTH_IV  sha=6efb98bd8bf2645d
+#[verifier::external_body] exec const kdf__SALT_LENGTH_IV: &'static [u8] ensures kdf__SALT_LENGTH_IV@ =~= seq![86u8, 77u8, 101u8, 115u8, 115u8, 32u8, 72u8, 101u8, 97u8, 100u8, 101u8, 114u8, 32u8, 65u8, 69u8, 65u8, 68u8, 32u8, 78u8, 111u8, 110u8, 99u8, 101u8, 95u8, 76u8, 101u8, 110u8, 103u8, 116u8, 104u8] { b"VMess Header AEAD Nonce_Length" }
+
+//@@ octo-squirrel/src/protocol/vmess/aead/kdf.rs:8-8  const SALT_PAYLOAD_KEY  sha=b5c9891c7a7ca059
+#[verifier::external_body] exec const kdf__SALT_PAYLOAD_KEY: &'static [u8] ensures kdf__SALT_PAYLOAD_KEY@ =~= seq![86u8, 77u8, 101u8, 115u8, 115u8, 32u8, 72u8, 101u8, 97u8, 100u8, 101u8, 114u8, 32u8, 65u8, 69u8, 65u8, 68u8, 32u8, 75u8, 101u8, 121u8] { b"VMess Header AEAD Key" }
+
+//@@ octo-squirrel/src/protocol/vmess/aead/kdf.rs:9-9  const SALT_PAYLOAD_IV  sha=765c0a6a51994b20
+#[verifier::external_body] exec const kdf__SALT_PAYLOAD_IV: &'static [u8] ensures kdf__SALT_PAYLOAD_IV@ =~= seq![86u8, 77u8, 101u8, 115u8, 115u8, 32u8, 72u8, 101u8, 97u8, 100u8, 101u8, 114u8, 32u8, 65u8, 69u8, 65u8, 68u8, 32u8, 78u8, 111u8, 110u8, 99u8, 101u8] { b"VMess Header AEAD Nonce" }
+
+//@@ octo-squirrel/src/protocol/vmess/aead/kdf.rs:10-10  const SALT_AEAD_RESP_HEADER_LEN_KEY  sha=683332e147cbed0e
+#[verifier::external_body] exec const kdf__SALT_AEAD_RESP_HEADER_LEN_KEY: &'static [u8] ensures kdf__SALT_AEAD_RESP_HEADER_LEN_KEY@ =~= seq![65u8, 69u8, 65u8, 68u8, 32u8, 82u8, 101u8, 115u8, 112u8, 32u8, 72u8, 101u8, 97u8, 100u8, 101u8, 114u8, 32u8, 76u8, 101u8, 110u8, 32u8, 75u8, 101u8, 121u8] { b"AEAD Resp Header Len Key" }
+
+//@@ octo-squirrel/src/protocol/vmess/aead/kdf.rs:11-11  const SALT_AEAD_RESP_HEADER_LEN_IV  sha=8eacb24c495afd5a
+#[verifier::external_body] exec const kdf__SALT_AEAD_RESP_HEADER_LEN_IV: &'static [u8] ensures kdf__SALT_AEAD_RESP_HEADER_LEN_IV@ =~= seq![65u8, 69u8, 65u8, 68u8, 32u8, 82u8, 101u8, 115u8, 112u8, 32u8, 72u8, 101u8, 97u8, 100u8, 101u8, 114u8, 32u8, 76u8, 101u8, 110u8, 32u8, 73u8, 86u8] { b"AEAD Resp Header Len IV" }
+
+//@@ octo-squirrel/src/protocol/vmess/aead/kdf.rs:12-12  const SALT_AEAD_RESP_HEADER_PAYLOAD_KEY  sha=c6861bbf0827410e
+#[verifier::external_body] exec const kdf__SALT_AEAD_RESP_HEADER_PAYLOAD_KEY: &'static [u8] ensures kdf__SALT_AEAD_RESP_HEADER_PAYLOAD_KEY@ =~= seq![65u8, 69u8, 65u8, 68u8, 32u8, 82u8, 101u8, 115u8, 112u8, 32u8, 72u8, 101u8, 97u8, 100u8, 101u8, 114u8, 32u8, 75u8, 101u8, 121u8] { b"AEAD Resp Header Key" }
+
+//@@ octo-squirrel/src/protocol/vmess/aead/kdf.rs:13-13  const SALT_AEAD_RESP_HEADER_PAYLOAD_IV  sha=5649b3fd258b2cba
+#[verifier::external_body] exec const kdf__SALT_AEAD_RESP_HEADER_PAYLOAD_IV: &'static [u8] ensures kdf__SALT_AEAD_RESP_HEADER_PAYLOAD_IV@ =~= seq![65u8, 69u8, 65u8, 68u8, 32u8, 82u8, 101u8, 115u8, 112u8, 32u8, 72u8, 101u8, 97u8, 100u8, 101u8, 114u8, 32u8, 73u8, 86u8] { b"AEAD Resp Header IV" }
+
+//@@ octo-squirrel/src/protocol/vmess/aead/auth_id.rs:11-21  fn create  sha=d3e82d0099898d6a
+#[verifier::external_body] fn verif_lit_8b6369acd5() -> (r: &'static [u8]) ensures r@ =~= seq![65u8, 69u8, 83u8, 32u8, 65u8, 117u8, 116u8, 104u8, 32u8, 73u8, 68u8, 32u8, 69u8, 110u8, 99u8, 114u8, 121u8, 112u8, 116u8, 105u8, 111u8, 110u8] { b"AES Auth ID Encryption" }
+fn auth_id__create(key: &[u8], time: i64) -> [u8; 16] {
+    let mut auth_id = [0; 16];
+    let mut buf = BytesMut::new();
+    buf.put_i64(time);
+    buf.put_u32(random());
+    let crc32 = vmess__crc32(&buf);
+    buf.put_i32(crc32 as i32);
+    auth_id.copy_from_slice(&buf);
+    Aes128EcbNoPadding::encrypt(&kdf__kdf16(key, vec![verif_lit_8b6369acd5()]), &mut auth_id, 16);
+    auth_id
+}
+
+//@@ octo-squirrel/src/protocol/vmess/aead/auth_id.rs:23-36  fn matching  sha=1ab4a83c6fc1d1ef
+fn auth_id__matching(authid: &[u8], keys: &Vec<[u8; 16]>) -> Result<Option<[u8; 16]>, SystemTimeError> {
+    for key in keys {
+        let mut cur = [0; 16];
+        cur.copy_from_slice(authid);
+        Aes128EcbNoPadding::decrypt(&kdf__kdf16(key, vec![verif_lit_8b6369acd5()]), &mut cur);
+        let crc32 = vmess__crc32(&cur[..12]);
+        let (l, r) = cur.split_at(12);
+        let now = i64::v_from_be_bytes(l[..8].v_try_into().unwrap());
+        if i32::v_from_be_bytes(r.v_try_into().unwrap()) == crc32 as i32 && now.abs_diff(vmess__now()?) <= 120 {
+            return Ok(Some(*key));
+        }
+    }
+    Ok(None)
+}
+
+//@@ octo-squirrel/src/protocol/vmess/aead/encrypt.rs:20-20  const NONCE_SIZE  sha=e0c733e46a4c3f2f
+const encrypt__NONCE_SIZE: usize = 12;
+
+//@@ octo-squirrel/src/protocol/vmess/aead/encrypt.rs:21-21  const TAG_SIZE  sha=7ad0b22869ec88e2
+const encrypt__TAG_SIZE: usize = 16;
+
+//@@ octo-squirrel/src/protocol/vmess/aead/encrypt.rs:23-41  fn seal_header  sha=8ab7ccb464f79684
+fn encrypt__seal_header(key: &[u8], header: Bytes) -> Result<Vec<u8>> {
+    let auth_id = auth_id__create(key, timestamp(30)?);
+    let connection_nonce: [u8; 8] = random();
+    let length = (header.len() as u16).v_to_be_bytes();
+    let length_key = kdf__kdf16(key, vec![kdf__SALT_LENGTH_KEY, &auth_id, &connection_nonce]);
+    let length_iv: [u8; encrypt__NONCE_SIZE] = kdf__kdfn(key, vec![kdf__SALT_LENGTH_IV, &auth_id, &connection_nonce]);
+    let length_encrypted =
+        Aes128Gcm::new_from_slice(&length_key)?.encrypt(&length_iv.into(), Payload { msg: &length, aad: &auth_id }).map_err(|e| verif_err())?;
+    let header_key = kdf__kdf16(key, vec![kdf__SALT_PAYLOAD_KEY, &auth_id, &connection_nonce]);
+    let header_iv: [u8; encrypt__NONCE_SIZE] = kdf__kdfn(key, vec![kdf__SALT_PAYLOAD_IV, &auth_id, &connection_nonce]);
+    let header_encrypted =
+        Aes128Gcm::new_from_slice(&header_key)?.encrypt(&header_iv.into(), Payload { msg: &header, aad: &auth_id }).map_err(|e| verif_err())?;
+    let mut res = Vec::new();
+    res.extend_from_slice(&auth_id); // 16
+    res.extend_from_slice(&length_encrypted); // 2 + TAG_SIZE
+    res.extend_from_slice(&connection_nonce); // 8
+    res.extend_from_slice(&header_encrypted); // payload + TAG_SIZE
+    Ok(res)
+}
+
+//@@ octo-squirrel/src/protocol/vmess/aead/encrypt.rs:43-72  fn open_header  sha=a286a59407e33888
+fn encrypt__open_header(key: &[u8], src: &mut BytesMut) -> Result<Option<Vec<u8>>> {
+    let mut cursor = Cursor::new(src);
+    if cursor.remaining() < encrypt__TAG_SIZE + 2 + encrypt__TAG_SIZE + 8 + encrypt__TAG_SIZE {
+        return Ok(None);
+    }
+    let mut auth_id = [0; encrypt__TAG_SIZE];
+    let mut length_encrypted = [0; 2 + encrypt__TAG_SIZE];
+    let mut nonce = [0; 8];
+    cursor.copy_to_slice(&mut auth_id);
+    cursor.copy_to_slice(&mut length_encrypted);
+    cursor.copy_to_slice(&mut nonce);
+    let length_key = kdf__kdf16(key, vec![kdf__SALT_LENGTH_KEY, &auth_id, &nonce]);
+    let length_iv: [u8; encrypt__NONCE_SIZE] = kdf__kdfn(key, vec![kdf__SALT_LENGTH_IV, &auth_id, &nonce]);
+    let length_bytes = Aes128Gcm::new_from_slice(&length_key)?
+        .decrypt(&length_iv.into(), Payload { msg: &length_encrypted, aad: &auth_id })
+        .map_err(|e| verif_err())?;
+    let length = u16::v_from_be_bytes(length_bytes.v_try_into().map_err(|_verif_ign0| verif_err())?) as usize;
+    if cursor.remaining() < length + encrypt__TAG_SIZE {
+        return Ok(None);
+    }
+    let header_key = kdf__kdf16(key, vec![kdf__SALT_PAYLOAD_KEY, &auth_id, &nonce]);
+    let header_iv: [u8; encrypt__NONCE_SIZE] = kdf__kdfn(key, vec![kdf__SALT_PAYLOAD_IV, &auth_id, &nonce]);
+    let header_encrypted = cursor.copy_to_bytes(length + encrypt__TAG_SIZE);
+    let header_bytes = Aes128Gcm::new_from_slice(&header_key)?
+        .decrypt(&header_iv.into(), Payload { msg: &header_encrypted, aad: &auth_id })
+        .map_err(|e| verif_err())?;
+    let pos = cursor.position();
+    cursor.into_inner().advance(pos as usize);
+    Ok(Some(header_bytes))
+}
